@@ -145,7 +145,7 @@ pub fn alpha() -> Alpha {
 
 pub fn run(rep: &mut Rep) {
     let a = alpha();
-    let scripts = if rep.quick() { 500 } else { 12000 };
+    let scripts = if rep.quick() { 500 } else { 80000 };
     let steps = 28;
     let mut variants: Vec<Variant> = Vec::new();
     for discipline in 1..=4u8 {
